@@ -65,6 +65,20 @@ def run_property(prop, mod, tier, only=None):
             first = cf.diagnostics[0].splitlines()[0] if cf.diagnostics else ""
             violations.append((key, path, "expansion does not compile: " + first))
 
+    # programs that must not compile: decided by rustc as well
+    for s in kc.accepted_unexpectedly:
+        key = "%s/accepted" % s.name
+        path = os.path.join(replay_dir, s.name + ".accepted.rs")
+        with open(path, "w") as f:
+            f.write("// %s: this program must be rejected with a diagnostic, but the derive accepted it (decided by rustc during the harness build).\n" % prop)
+            f.write("// replay with: ./check %s --replay %s\n" % (prop, path))
+            f.write(s.source)
+        text = kf.match(prop, key)
+        if text is not None:
+            known_lines.append("KNOWN-FINDING: property=%s key=%s %s" % (prop, key, text))
+        else:
+            violations.append((key, path, "accepted although it must be rejected: " + s.descr))
+
     # solver verdicts
     replayed = 0
     to_replay = []
@@ -143,6 +157,9 @@ def run_property(prop, mod, tier, only=None):
         "programs_in_grid": n_shapes_generated,
         "programs_compiled": len(kc.shapes),
         "programs_rejected_by_rustc": [cf.shape.name for cf in kc.compile_failures],
+        "must_not_compile_programs": len(kc.rejected_as_expected) + len(kc.accepted_unexpectedly),
+        "must_not_compile_rejected": [{"program": s.descr, "diagnostic": (re.sub(r"\s+", " ", d[0])[:160] if d else "")} for s, d in kc.rejected_as_expected],
+        "must_not_compile_accepted": [s.descr for s in kc.accepted_unexpectedly],
         "harnesses": len(kc.results),
         "harnesses_successful": len(okr),
         "harnesses_failed": len([r for r in kc.results if r.status == "FAILED"]),
@@ -177,7 +194,7 @@ def run_property(prop, mod, tier, only=None):
     for key, path, what in violations:
         print("VIOLATION property=%s replay=%s" % (prop, path))
         log("  %s: %s" % (key, what))
-    if not kc.results and not kc.compile_failures and not inconclusive:
+    if not kc.results and not kc.compile_failures and not inconclusive and not kc.rejected_as_expected and not kc.accepted_unexpectedly:
         inconclusive.append("no harness was run")
     if violations:
         return common.EXIT_VIOLATION
@@ -220,6 +237,14 @@ def replay_file(prop, path):
     lib += "pub mod shape;\n"
     open(os.path.join(d, "src", "lib.rs"), "w").write(lib)
     open(os.path.join(d, "src", "shape.rs"), "w").write(src)
+    if path.endswith(".accepted.rs"):
+        code, out = run_cmd(["cargo", "kani", "--only-codegen", "--target-dir", "tgt"], cwd=d, timeout=1800, mem_limit=False)
+        print(out[-2000:])
+        if code == 0:
+            print("the program compiles")
+            print("VIOLATION property=%s replay=%s" % (prop, path))
+            return common.EXIT_VIOLATION
+        return common.EXIT_OK
     if path.endswith(".build.rs"):
         code, out = run_cmd(["cargo", "kani", "--only-codegen", "--target-dir", "tgt"], cwd=d, timeout=1800, mem_limit=False)
         print(out[-3000:])
